@@ -206,7 +206,13 @@ fn c15_nak_decoder_16() {
     }
     let mut want = [0u32; REF_MAX];
     let n = ref_nak(b, &mut want);
+    // MODEL-ONLY-BEGIN
+    smallvec::model_set_push_limit(n);
+    // MODEL-ONLY-END
     let got = parse_srt_nak(b);
+    // MODEL-ONLY-BEGIN
+    smallvec::model_set_push_limit(usize::MAX);
+    // MODEL-ONLY-END
     assert!(got.len() == n, "NAK list length equals the reference decoder's");
     assert!(n <= REF_MAX, "bound of this harness");
     let k: usize = kani::any();
@@ -243,6 +249,7 @@ fn c15_nak_singles_24() {
     kani::cover!(got.len() == 5, "five singles");
 }
 
+// MODEL-ONLY-BEGIN (uses the model crate's API; stripped from native replay copies)
 /// Count-only stand-in for `SmallVec::push` (the cap is a claim about the NUMBER of entries; their
 /// values are decided by c15_nak_decoder_16).  Removes 1000 symbolic array writes from the query.
 fn push_count_only<T, const N: usize>(v: &mut smallvec::SmallVec<T, N>, t: T) {
@@ -309,6 +316,8 @@ fn c15_nak_two_ranges_cap() {
     assert!(out.len() as u64 == want, "two ranges expand to min(1000, total width) entries");
     kani::cover!(w(f1, l1) == 400 && w(f2, l2) > 700, "second range truncated by the cap");
 }
+
+// MODEL-ONLY-END
 
 // ------------------------------------------------------------------ builders
 
